@@ -312,6 +312,7 @@ func runShapes(r *core.Run) {
 		r.NontrivialN(int64(len(lv)))
 	}
 	r.Set("shape_nesting_completed", completed)
+	bounds["type_nesting"] = completed
 	r.Set("shape_types", nTypes)
 	// catalogue
 	p := workers[0]
